@@ -19,7 +19,7 @@ pub fn spec() -> Spec {
     Spec {
         prop: "C06",
         level: "exploration",
-        rule: "Invariant checker over the RPC surface only, everything recomputed independently (own 2048-bit bloom, own sha256 merkle with odd-node promotion, alloy-rlp decoding of raw block/header/receipts): heights contiguous, parent links, hash<->number inversion, block transaction list = receipts handed to the indexer in index order, tx/receipt/(block,index)/inscription lookups agree, logIndex contiguous, cumulative gas = running sum ending at block gasUsed, blooms, transactions root, counts, contract address -> inscription id. Checked at every block boundary over all heights of random histories (all op kinds, multi-tx/empty blocks, failing/reverting/invalid transactions, factory-created contracts, pool drains, reorg + regrowth). Non-trivial = block with >=2 transactions and >=2 logs that passed all equations; distinct by block content digest.",
+        rule: "Invariant checker over the RPC surface only, everything recomputed independently (own 2048-bit bloom, own sha256 merkle with odd-node promotion, alloy-rlp decoding of raw block/header/receipts): heights contiguous, parent links, hash<->number inversion, block transaction list = receipts handed to the indexer in index order, tx/receipt/(block,index)/inscription lookups agree, logIndex contiguous, cumulative gas = running sum ending at block gasUsed, blooms, transactions root, counts, contract address -> inscription id. Checked at every block boundary over all heights of random histories (all op kinds, multi-tx/empty blocks, failing/reverting/invalid transactions, factory-created contracts, pool drains, reorg + regrowth). Directed: blocks whose gas total exceeds 2^64 (halting calls with huge reported lengths) must keep receipts and header consistent (the engine stops adding at the last representable total). Non-trivial = block with >=2 transactions and >=2 logs that passed all equations; distinct by block content digest.",
         assumptions: vec!["inscription ids are unique per transaction in generated histories, as on Bitcoin".into()],
         exhaustive: false,
         min_nontrivial: 2,
@@ -430,6 +430,36 @@ fn directed_invalid_repeat(ctx: &WorkerCtx, rep: &mut WorkerReport, net: &str) {
     drop_driver(d);
 }
 
+/// Blocks whose gas total does not fit in 64 bits: halting calls (INVALID burns the whole allowance)
+/// with astronomically large reported lengths. Receipts and the block header must stay consistent.
+fn directed_gas_overflow(ctx: &WorkerCtx, rep: &mut WorkerReport, net: &str) {
+    let mut d = new_driver("C06");
+    d.exec(Op::Init { hash: hist::ZERO_HASH.into(), ts: 5, height: 0 });
+    let pk = "5120cdcdcdcdcdcdcdcdcdcdcdcdcdcdcdcdcdcdcdcdcdcdcdcdcdcdcdcdcdcdcdcd".to_string();
+    let h1 = crate::hist::bh(0x6a50);
+    let r = d.exec(Op::Deploy { pk: pk.clone(), data: hist::hx(&crate::asm::tool_init()), enc: Enc::Hex, ctx: Ctx { ts: 6, hash: h1.clone(), idx: 0 }, iid: "gas-tooli0".into(), len: 100_000, txid: hist::ZERO_HASH.into() });
+    d.exec(Op::Finalise { ts: 6, hash: h1, count: 1 });
+    let Some(tool) = hist::created_address(&r) else {
+        drop_driver(d);
+        return;
+    };
+    let half = u64::MAX / 2 / 12000 + 1; // two of these exceed 2^64 together
+    let shapes: [&[u64]; 4] = [&[100_000, u64::MAX, 100_000], &[half, half, 100_000], &[u64::MAX, u64::MAX], &[half, 100_000, half, half]];
+    for (b, lens) in shapes.iter().enumerate() {
+        let h = crate::hist::bh(0x6a51 + b as u64);
+        for (i, len) in lens.iter().enumerate() {
+            let data = if *len > 1_000_000 { crate::asm::tool_call(crate::asm::OP_INVALID, &[], &[]) } else { crate::asm::tool_call(crate::asm::OP_INC, &[crate::asm::word_u64(2)], &[]) };
+            d.exec(Op::Call { pk: pk.clone(), target: Target::Addr(tool.clone()), data: Some(hist::hx(&data)), enc: Enc::Hex, ctx: Ctx { ts: 7 + b as u64, hash: h.clone(), idx: i as u64 }, iid: format!("gas-{}-{}i0", b, i), len: *len, txid: hist::ZERO_HASH.into() });
+        }
+        let n = d.ntx;
+        d.exec(Op::Finalise { ts: 7 + b as u64, hash: h, count: n });
+        rep.nontrivial(format!("gas-overflow-block:{}:{}", net, b));
+    }
+    let mut c = Checker { rep, seed: ctx.seed, case_seed: 2, net, failed: false };
+    c.check_all(&mut d);
+    drop_driver(d);
+}
+
 /// Mainnet below the RLP-hash height: the transaction hash is the signing hash, which does not cover
 /// the signature, so two signers sending the same (nonce, to, data) collide.
 fn directed_signing_hash_collision(ctx: &WorkerCtx, rep: &mut WorkerReport, net: &str) {
@@ -506,6 +536,9 @@ pub fn worker(ctx: &WorkerCtx) -> WorkerReport {
     }
     if ctx.shard == 2 {
         directed_signing_hash_collision(ctx, &mut rep, net);
+    }
+    if (3..6).contains(&ctx.shard) {
+        directed_gas_overflow(ctx, &mut rep, net);
     }
     let mut rng = ctx.rng();
     let (cases, blocks) = if ctx.thorough() { (8, 16) } else { (1, 12) };
